@@ -19,6 +19,10 @@ struct PeerPlan {
     /// close in the middle of the last `Piece` message
     drop_mid: bool,
     seed: u64,
+    /// answer every request only after this delay (a slow but honest peer)
+    slow_ms: u64,
+    /// choke us now and then after a block, and unchoke again a moment later (honest peers may do that)
+    chokes: bool,
 }
 
 fn msg(id: u8, payload: &[u8]) -> Vec<u8> {
@@ -156,6 +160,9 @@ fn run_peer(
                     if !unchoked || index >= plan.pieces.len() || !plan.pieces[index] {
                         continue;
                     }
+                    if plan.slow_ms > 0 {
+                        std::thread::sleep(std::time::Duration::from_millis(plan.slow_ms));
+                    }
                     let start = index * pl + begin;
                     let end = (start + length).min(content.len());
                     if start > end {
@@ -174,6 +181,16 @@ fn run_peer(
                     }
                     sent += 1;
                     served.fetch_add(1, Ordering::SeqCst);
+                    if plan.chokes && plan.drop_after.is_none() && r.chance(1, 3) {
+                        // Choke, and a little later Unchoke ("eventually unchokes")
+                        if !write_segmented(&mut s, &msg(0, &[]), &mut r) {
+                            return;
+                        }
+                        std::thread::sleep(std::time::Duration::from_millis(5 + r.below(30)));
+                        if !write_segmented(&mut s, &msg(1, &[]), &mut r) {
+                            return;
+                        }
+                    }
                     if plan.drop_after == Some(sent) && !plan.drop_mid {
                         return;
                     }
@@ -196,7 +213,12 @@ fn tracker_reply(entries: &[(u16, [u8; 20])]) -> Vec<u8> {
 }
 
 /// Child process body: `child-e2e02 <seed> <pl> <lens> <honest> <droppers> <stay>`; one `E2E …` line on stderr.
-pub fn child(seed: u64, pl: usize, lens: &str, honest: usize, droppers: usize, stay: bool) -> ! {
+pub fn child(seed: u64, pl: usize, lens: &str, honest: usize, droppers: usize, mode: u32) -> ! {
+    // mode: 0 = one honest peer leaves once everything is stored, 1 = everybody stays,
+    //       2/3 = the same with every piece at exactly one peer and the first peer slow
+    let stay = mode == 1 || mode == 3;
+    let disjoint = mode >= 2;
+    let chokes = seed % 3 == 0;
     std::panic::set_hook(Box::new(|_| {
         PANICS.fetch_add(1, Ordering::SeqCst);
     }));
@@ -225,6 +247,10 @@ pub fn child(seed: u64, pl: usize, lens: &str, honest: usize, droppers: usize, s
     let mut plans: Vec<PeerPlan> = vec![];
     let mut own: Vec<Vec<bool>> = vec![vec![false; npieces]; honest];
     for i in 0..npieces {
+        if disjoint {
+            own[i % honest][i] = true;
+            continue;
+        }
         own[r.below(honest as u64) as usize][i] = true;
         for h in 0..honest {
             if r.chance(1, 3) {
@@ -233,11 +259,12 @@ pub fn child(seed: u64, pl: usize, lens: &str, honest: usize, droppers: usize, s
         }
     }
     for h in 0..honest {
-        plans.push(PeerPlan { pieces: own[h].clone(), drop_after: None, drop_mid: false, seed: r.next() });
+        let slow_ms = if disjoint && h == 0 { 150 } else { 0 };
+        plans.push(PeerPlan { pieces: own[h].clone(), drop_after: None, drop_mid: false, seed: r.next(), slow_ms, chokes });
     }
     for _ in 0..droppers {
         let pieces: Vec<bool> = (0..npieces).map(|_| r.coin()).collect();
-        plans.push(PeerPlan { pieces, drop_after: Some(r.below(3) as usize), drop_mid: r.coin(), seed: r.next() });
+        plans.push(PeerPlan { pieces, drop_after: Some(r.below(3) as usize), drop_mid: r.coin(), seed: r.next(), slow_ms: 0, chokes: false });
     }
     r.shuffle(&mut plans);
     let stop = Arc::new(AtomicBool::new(false));
@@ -382,6 +409,7 @@ pub fn gen(r: &mut Rng, n: usize) -> Vec<String> {
         };
         let nf = 1 + r.below(4) as usize;
         let max_total = match family {
+            4 => 3 * pl,      // a few pieces, each at exactly one peer, the first peer slow: a fast peer is dismissed early
             1 => 3 * pl,      // no more pieces than peers: everything is Reserved at once
             2 => pl,          // a single piece wanted from every peer (end game duplicates)
             3 => 12 * pl,     // more pieces than the end-game limit
@@ -412,7 +440,14 @@ pub fn gen(r: &mut Rng, n: usize) -> Vec<String> {
             _ => (1 + r.below(3), r.below(3)),
         };
         let stay = r.chance(1, 3);
-        out.push(format!("e2e {} {} {} {} {} {}", r.below(1 << 30), pl, lens_s, honest, droppers, if stay { 1 } else { 0 }));
+        let mode = match (family == 4, stay) {
+            (false, false) => 0,
+            (false, true) => 1,
+            (true, false) => 2,
+            (true, true) => 3,
+        };
+        let honest = if family == 4 { honest.max(2) } else { honest };
+        out.push(format!("e2e {} {} {} {} {} {}", r.below(1 << 30), pl, lens_s, honest, droppers, mode));
     }
     out
 }
